@@ -82,6 +82,18 @@ def check(w):
         for dele in (False, True):
             scen.append({"name": "", "t": "reg", "sends": False, "escapes": sub not in BENIGN_SUBS, "recv": "daemon", "delete": dele, "sub": sub,
                          "benign": True, "class": "daemon-subdir"})
+    # time of check vs time of use WITHIN one list: an entry is handled while its path runs through an inside-pointing
+    # symlink; a later entry re-points that symlink (through an alias of the root) to the outside; an operation the
+    # receiver performs LATER for the first entry (directory permission touch-up after the transfer, commit of file data
+    # that arrives after the generator's pass) must still resolve through the root (Confine.tla: Deferred)
+    for target in ("OUTSIDE", "../outside"):
+        for rv in ("client", "daemon"):
+            scen.append({"name": "a", "t": "dir", "sends": False, "escapes": True, "recv": rv, "delete": False, "class": "retarget-touchup",
+                         "more": [{"name": "a/sub", "t": "dir"}, {"name": "b", "t": "lnkto:a"}, {"name": "b/sub", "t": "rodir"},
+                                  {"name": "c", "t": "lnkto:."}, {"name": "c/b", "t": "lnkto:" + target}]})
+            scen.append({"name": "a", "t": "dir", "sends": False, "escapes": True, "recv": rv, "delete": False, "batch": True, "class": "retarget-commit",
+                         "more": [{"name": "b", "t": "lnkto:a"}, {"name": "b/file", "t": "reg"}, {"name": "b/sub/file", "t": "reg"}, {"name": "b/sub", "t": "dir"},
+                                  {"name": "c", "t": "lnkto:."}, {"name": "c/b", "t": "lnkto:" + target}]})
     # random longer hostile lists over the same grammar
     comps = ["a", "l", "lf", "s", "..", "b", "sub", "file"]
     types = ["reg", "dir", "lnk", "lnkout", "fifo", "sock", "chr"]
